@@ -211,6 +211,8 @@ impl Db {
             // recorded: it describes what the index used to contain.
             if !in_memory && config.meta_path.is_file() {
                 fs::remove_file(&config.meta_path)?;
+                #[cfg(feature = "verif")]
+                crate::verif::point("rebuild.meta_invalidated", "", 0, 0)?;
             }
 
             #[cfg(feature = "verif")]
